@@ -572,7 +572,102 @@ def tag(case, f):
     return None
 
 
+# ---------------------------------------------------------------------------------------------
+# equal values under different per-column dtypes and block layouts (the receiver's and the argument's layout are
+# independent): equals must depend on the per-column dtypes only through compare_dtype, never on the layout
+
+DL_DTYPES = ('int8', 'int32', 'int64', 'float32', 'float64', 'object', 'uint8')
+
+
+@st.composite
+def dl_cases(draw):
+    n = draw(st.integers(1, 3))
+    m = draw(st.integers(1, 5))
+    vals = [[draw(st.integers(0, 9)) for _ in range(n)] for _ in range(m)]  # exactly representable in every dtype above
+    fam = draw(st.sampled_from([DL_DTYPES, ('float64', 'float32', 'int64'), ('object', 'int64', '<U1')]))
+    base_dt = draw(st.sampled_from(fam))
+    dts_a = [base_dt if draw(st.integers(0, 3)) else draw(st.sampled_from(fam)) for _ in range(m)]
+    dts_b = [dts_a[j] if draw(st.integers(0, 2)) else draw(st.sampled_from(fam)) for j in range(m)]
+    cut = lambda: [draw(st.booleans()) for _ in range(max(m - 1, 0))]  # noqa: E731  (join column j with j+1 when dtypes allow)
+    edit = draw(st.one_of(st.none(), st.tuples(st.integers(0, m - 1), st.integers(0, n - 1))))
+    return {'vals': vals, 'dts_a': dts_a, 'dts_b': dts_b, 'cut_a': cut(), 'cut_b': cut(), 'edit': edit,
+            'opts': {'compare_name': draw(st.booleans()), 'compare_dtype': draw(st.booleans()), 'compare_class': draw(st.booleans()), 'skipna': draw(st.booleans())},
+            'series': draw(st.integers(0, 5)) == 0}
+
+
+def _dl_cols(vals, dts):
+    out = []
+    for col, dt in zip(vals, dts):
+        if dt == '<U1':
+            out.append(np.array([str(v) for v in col], dtype='<U1'))
+        else:
+            a = np.empty(len(col), dtype=dt)
+            a[:] = col
+            out.append(a)
+    return out
+
+
+def _dl_blocks(cols, cut):
+    blocks = []
+    i = 0
+    m = len(cols)
+    while i < m:
+        j = i + 1
+        while j < m and cut[j - 1] and cols[j].dtype == cols[i].dtype:
+            j += 1
+        if j - i == 1:
+            blocks.append(cols[i])
+        else:
+            blocks.append(np.column_stack(cols[i:j]) if cols[i].dtype != object else np.array([list(r) for r in zip(*cols[i:j])], dtype=object).reshape(len(cols[i]), j - i))
+        i = j
+    return blocks
+
+
+def check_dl(case):
+    vals_a = [list(c) for c in case['vals']]
+    vals_b = [list(c) for c in case['vals']]
+    if case['edit'] is not None:
+        j, i = case['edit']
+        vals_b[j][i] = (vals_b[j][i] + 1) % 10
+    opts = case['opts']
+    ca, cb = _dl_cols(vals_a, case['dts_a']), _dl_cols(vals_b, case['dts_b'])
+    n, m = len(vals_a[0]), len(vals_a)
+    if case['series']:
+        a = sf.Series(gen.freeze(ca[0]), name='s')
+        b = sf.Series(gen.freeze(cb[0]), name='s')
+        m = 1
+        ca, cb = ca[:1], cb[:1]
+    else:
+        a = sf.Frame(sf.TypeBlocks.from_blocks([gen.freeze(x) for x in _dl_blocks(ca, case['cut_a'])], shape_reference=(n, m)), own_data=True, name='f')
+        b = sf.Frame(sf.TypeBlocks.from_blocks([gen.freeze(x) for x in _dl_blocks(cb, case['cut_b'])], shape_reference=(n, m)), own_data=True, name='f')
+    # reference: '<U1' text differs from the number it spells; all other dtypes hold the same numbers
+    def cell_eq(x, y):
+        return (isinstance(x, str) == isinstance(y, str)) and x == y
+    values_equal = all(cell_eq(x, y) for p, q in zip(ca[:m], cb[:m]) for x, y in zip(p.tolist(), q.tolist()))
+    dtypes_equal = all(p.dtype == q.dtype for p, q in zip(ca[:m], cb[:m]))
+    want = values_equal and (dtypes_equal or not opts['compare_dtype'])
+    g_ab = _equals(a, b, opts, 'equals(a,b,%r)' % opts)
+    g_ba = _equals(b, a, opts, 'equals(b,a,%r)' % opts)
+    lay = 'layouts a=%s b=%s dtypes a=%s b=%s' % ([x.shape for x in (a._blocks._blocks if not case['series'] else [])],
+                                                  [x.shape for x in (b._blocks._blocks if not case['series'] else [])], case['dts_a'][:m], case['dts_b'][:m])
+    if g_ab != g_ba:
+        raise Failure('asymmetric', 'equals(a,b)=%s but equals(b,a)=%s opts=%r; %s' % (g_ab, g_ba, opts, lay))
+    if g_ab != want:
+        raise Failure('predicate', 'equals(a,b)=%s, reference predicate says %s; opts=%r; %s' % (g_ab, want, opts, lay))
+    if not case['series']:
+        he_eq = must(lambda: a.to_frame_he() == b.to_frame_he(), what='HE ==')
+        if he_eq is not values_equal:
+            raise Failure('he-eq', 'FrameHE == is %r, values equal is %r; %s' % (he_eq, values_equal, lay))
+        if he_eq and hash(a.to_frame_he()) != hash(b.to_frame_he()):
+            raise Failure('hash', 'a == b but hash differs; %s' % lay)
+    classes = ['dl:dtypes-' + ('equal' if dtypes_equal else 'differ'), 'dl:values-' + ('equal' if values_equal else 'differ'),
+               'dl:layout-' + ('same' if case['cut_a'] == case['cut_b'] else 'differ')]
+    return {'nt': values_equal and not dtypes_equal or (case['cut_a'] != case['cut_b'] and m >= 2), 'cls': classes}
+
+
 SUBS = [
     Sub('triples', cases(), check, quick=2500, thorough=48000, tag=tag,
         rule='equals vs reference predicate on recipes; symmetry; reflexivity on fresh copies; transitivity; HE ==/!=/hash/set'),
+    Sub('dtype_layouts', dl_cases(), check_dl, quick=2000, thorough=48000,
+        rule='equal (or one-cell-different) numbers under independently drawn per-column dtypes and independent block layouts on the two sides; equals in both directions vs per-column reference; FrameHE ==/hash'),
 ]
